@@ -171,7 +171,20 @@ static void body(Tape &t, Ctx &ctx) {
                     vals.push_back(v);
                     if (byName) cells.push_back(nix::Cell(m.cols[c].name, v)); else cells.push_back(nix::Cell(c, v));
                 }
-                ctx.trace << "writeCells(" << r << ",n=" << idx.size() << (byName ? ",byName" : ",byIndex") << ") ";
+                // cells are values: a caller may fill a pre-sized vector by assignment or reorder it afterwards
+                const char *how = "";
+                if (t.chance(40)) {
+                    std::vector<nix::Cell> filled(cells.size());
+                    for (size_t i = 0; i < cells.size(); i++) filled[i] = cells[i];
+                    cells = filled;
+                    how = ",assigned";
+                } else if (t.chance(30) && cells.size() >= 2) {
+                    std::swap(cells.front(), cells.back());
+                    std::swap(idx.front(), idx.back());
+                    std::swap(vals.front(), vals.back());
+                    how = ",swapped";
+                }
+                ctx.trace << "writeCells(" << r << ",n=" << idx.size() << (byName ? ",byName" : ",byIndex") << how << ") ";
                 df.writeCells(r, cells);
                 for (size_t i = 0; i < idx.size(); i++) m.rows[r][idx[i]] = vals[i];
             }
